@@ -69,6 +69,29 @@ static std::unordered_map<void *, BlockInfo> *g_live;
 static uint64_t g_live_bytes;
 static std::unordered_map<size_t, std::vector<void *>> *g_recycle; // reuse mode: size -> freed blocks (LIFO)
 
+static const size_t CANARY_BYTES = 16;
+static const unsigned char CANARY_FILL = 0xC5;
+static void canary_check(void *p, size_t sz)
+{
+	const unsigned char *q = (const unsigned char *)p + sz;
+	for (size_t i = 0; i < CANARY_BYTES; i++)
+		if (q[i] != CANARY_FILL) {
+			if (!g_alloc.canary_hits) {
+				g_alloc.canary_block = sz;
+				g_alloc.canary_off = i;
+			}
+			g_alloc.canary_hits++;
+			return;
+		}
+}
+void SimAlloc::check_live_canaries()
+{
+	if (!canary || thread_mode || !g_live)
+		return;
+	for (auto &kv : *g_live)
+		canary_check(kv.first, kv.second.size);
+}
+
 static void recycle_flush()
 {
 	if (!g_recycle)
@@ -112,6 +135,9 @@ void SimAlloc::reset_run()
 	total_fired = 0;
 	total_reqs = 0;
 	foreign_frees = 0;
+	canary = false;
+	canary_hits = 0;
+	canary_block = canary_off = 0;
 	in_parse = 0;
 	parse_reqs = 0;
 	fired_in_parse = 0;
@@ -178,9 +204,11 @@ extern "C" void *sim_malloc(size_t n)
 		}
 	}
 	if (!p)
-		p = malloc(n ? n : 1);
+		p = malloc(g_alloc.canary ? n + CANARY_BYTES : (n ? n : 1));
 	if (!p)
 		return NULL;
+	if (g_alloc.canary)
+		memset((unsigned char *)p + n, CANARY_FILL, CANARY_BYTES);
 	if (!g_live)
 		g_live = new std::unordered_map<void *, BlockInfo>();
 	(*g_live)[p] = BlockInfo{n, g_alloc.total_reqs};
@@ -203,6 +231,8 @@ extern "C" void sim_free(void *p)
 			size_t sz = it->second.size;
 			g_live_bytes -= sz;
 			g_live->erase(it);
+			if (g_alloc.canary)
+				canary_check(p, sz);
 			if (g_alloc.reuse) {
 				if (!g_recycle)
 					g_recycle = new std::unordered_map<size_t, std::vector<void *>>();
